@@ -19,6 +19,9 @@ import vlib
 import lpgen
 from lpgen import qs, vtxt
 
+if hasattr(sys, "set_int_max_str_digits"):
+    sys.set_int_max_str_digits(0)      # exact answers can have tens of thousands of digits
+
 HARNESSES = ["C03"]
 MODEL = True
 
@@ -263,6 +266,9 @@ def kernel_case(r, p, tag):
         a["stalls"] = str(r.choice([0, 2, 3]))
     if r.random() < 0.15:
         a["timelimit"] = "0"
+    # _checkRefinementProgress: best violation so far (inf at the start) and improvement factor
+    a["best"] = r.choice(["inf", "inf", "0", "1", "1/3", "16", "1000", "1/1000000"])
+    a["factor"] = r.choice(["16", "16", "2", "11/10"])
     return "KERN %s %s" % (tag, " ".join("%s=%s" % (k, v) for k, v in sorted(a.items())))
 
 
@@ -399,7 +405,7 @@ def kernel_from_answers(ck, exe, model, answers, limit):
         a, b = hl.get(tag), ml.get(tag)
         ck.evaluated(("kern", line, p.key()), nontrivial=True)
         ck.count("kernel-cases-from-answers:" + kind)
-        if a is not None and "bv=0 sv=0 rv=0 dv=0 over=1 pf=1 df=1" in a:
+        if a is not None and "bv=0 sv=0 rv=0 dv=0 over=1 pf=1 df=1 " in a:
             ck.count("kernel-cases-from-answers:accepted:" + kind)
         if a != b:
             fa, fb = lpgen.parse_kv(a) if a else {}, lpgen.parse_kv(b) if b else {}
@@ -614,6 +620,11 @@ def e2e(ck, exe, cert, model, jobs):
                         "getPrimalRayRational is rejected by check_ray" if not okr else "the primal vector offered with it is not feasible", cfg), rep({"theorem": "Cert_Proofs.ray_unbounded"}))
                 else:
                     certified.setdefault("unbounded", []).append(c)
+            elif st == "CRASH" and o.get("signal") == "14":
+                # killed by the harness' alarm: the solve ran 40 s although its time limit is 8 s
+                ck.count("hung-runs")
+                if must_decide(cfg) or True:
+                    ck.violation("undecided:HANG:%s" % tags, "the exact solve of a tiny LP did not return within 40 s although timelimit = 8 s, under %s" % cfg, rep({"kind": "hang"}))
             elif st == "CRASH":
                 ck.count("crashed-runs")
                 ck.violation("crash:%s" % tags, "the exact solve crashed (%s) under %s" % (" ".join("%s=%s" % (a, b) for a, b in o.items() if a in ("signal", "exit")), cfg), rep({"kind": "crash"}))
@@ -723,7 +734,7 @@ def main():
         kernel_part(ck, exe, model, nlp=500, per_lp=12, nmax=12)
     # ---- (ii) end to end
     nmax = 10 if quick else 25
-    nlp = 70 if quick else 700
+    nlp = 70 if quick else 400
     corpus = load_corpus()
     lps = [c[0] for c in corpus] + [gen_rational_lp(r, nmax) for _ in range(nlp)]
     # the refutation witness of Properties_C03.v (objective offset) goes first
